@@ -55,6 +55,12 @@ def governed_read(o) -> Optional[str]:
         return s["field"]
     if s["kind"] == "global" and s["field"] == "GroupSize":
         return "GroupSize"
+    # reads of another group member: keyed ("abs", index, field) / ("rel", offset, field); they only take
+    # part in the evaluation when a valuation names them (group-mode checks)
+    if s["kind"] in ("gtxn", "gtxns"):
+        return ("abs", s["idx"], s["field"])
+    if s["kind"] == "rel":
+        return ("rel", s["off"] if s["sign"] == "+" else -s["off"], s["field"])
     return None
 
 
@@ -235,10 +241,28 @@ class Lit:
                         pass
         return ok, leaf, kind, succ
 
-    def walks(self, val: Dict[str, Any]) -> Tuple[Set[int], Set[int]]:
-        """-> (cs, ci): blocks on an entry->accepting-leaf walk under the valuation"""
+    def restrict_independent(self, vals: List[Dict[str, Any]]):
+        """several valuations read *independently* (no correlation between them): a block / edge is
+        admitted iff it is admitted under each valuation on its own"""
+        parts = [self.restrict(v) for v in vals]
+        ok, leaf, kind, succ = parts[0]
+        ok, leaf = list(ok), list(leaf)
+        succ = [list(x) for x in succ]
+        for o2, l2, _, s2 in parts[1:]:
+            for b in range(self.nb):
+                ok[b] = ok[b] and o2[b]
+                leaf[b] = leaf[b] and l2[b]
+                succ[b] = [x for x in succ[b] if x in s2[b]]
+        return ok, leaf, kind, succ
+
+    def walks(self, val) -> Tuple[Set[int], Set[int]]:
+        """-> (cs, ci): blocks on an entry->accepting-leaf walk under the valuation
+        (a dict, or a list of dicts that are read independently of each other)"""
         g = self.g
-        ok, leaf, kind, succ = self.restrict(val)
+        if isinstance(val, dict):
+            ok, leaf, kind, succ = self.restrict(val)
+        else:
+            ok, leaf, kind, succ = self.restrict_independent(val)
         nb = self.nb
         callee = [self.entry[g.seq[g.blocks[b][-1]].imm[0]] if kind[b] == "call" else None for b in range(nb)]
         callee_name = [g.seq[g.blocks[b][-1]].imm[0] if kind[b] == "call" else None for b in range(nb)]
